@@ -656,7 +656,10 @@ func (g *DocGen) Responses(path []string, depth int) obj {
 	const k = "responses"
 	g.mark(path, k)
 	o := obj{}
-	codes := []string{"200", "201", "204", "400", "404", "500", "099", "999"}
+	codes := []string{"200", "201", "204", "400", "404", "500", "999"}
+	if !g.Fragile && !g.Valid {
+		codes = append(codes, "099") // three digits with a leading zero: admitted by the meta-schema pattern
+	}
 	n := g.count(2)
 	if g.Only != nil {
 		n = 1
